@@ -51,6 +51,11 @@ def register_contracts(I):
                 if not isinstance(f, FuncV):
                     raise VCError(f"CONTRACTS[{q!r}] in {name} is not a function")
                 I.world.contracts[q] = f
+        c = mod.ns.get("ASSUMED_CONTRACTS")
+        if isinstance(c, DictV):
+            for q, f in c.pairs:
+                I.world.contracts[q] = f
+                I.world.assumed_contracts.add(q)
         ls = mod.ns.get("LOOPS")
         if isinstance(ls, DictV):
             from pyvc.loopcut import register_loops
@@ -64,7 +69,7 @@ def register_contracts(I):
 
 def run_harness(job):
     propmod, modname, fname, opts = job
-    from pyvc.interp import RaiseSig
+    from pyvc.interp import CutSig, RaiseSig
 
     t0 = time.time()
     out = {"harness": f"{modname}.{fname}", "checks": [], "covers": [], "notes": [], "paths": 0, "aborted": 0, "error": None}
@@ -80,6 +85,8 @@ def run_harness(job):
                 I.call(fn, [I.ghost.vc], {}, None)
             except RaiseSig as r:
                 ctx.check(False, f"no-uncaught-exception[{r.exc.cls.name}]", r.where)
+            except CutSig:
+                pass
 
         res = eng.explore(run_path)
         out["paths"] = res["paths"]
@@ -118,6 +125,7 @@ def list_harnesses(prop):
         jobs.append((modname, fname))
     meta = {
         "under_contract": sorted(I.world.contracts.keys()),
+        "assumed_contracts": sorted(I.world.assumed_contracts),
         "assumptions": [x for x in (mod.ns.get("ASSUMPTIONS").items if isinstance(mod.ns.get("ASSUMPTIONS"), ListV) else [])],
         "expect_covers": {},
         "level": mod.ns.get("LEVEL", "proof"),
@@ -148,6 +156,19 @@ def native_replay(modname, fname, replay_path):
         return {"verdict": "crash", "stdout": p.stdout[-2000:], "stderr": p.stderr[-2000:]}
 
 
+def native_fuzz(modname, fname, n, seed, budget_s):
+    env = dict(os.environ)
+    repo_src = os.environ.get("PYVC_REPO_SRC", "/repo/src")
+    env["PYTHONPATH"] = VERIF + os.pathsep + repo_src
+    env["PYTHONDONTWRITEBYTECODE"] = "1"
+    py = os.environ.get("PYVC_NATIVE_PYTHON", "/venv/bin/python")
+    try:
+        p = subprocess.run([py, "-m", "pyvc.native", "--fuzz", modname, fname, str(n), str(seed), str(budget_s)], capture_output=True, text=True, timeout=budget_s + 60, env=env, cwd=VERIF)
+        return json.loads(p.stdout.strip().splitlines()[-1])
+    except Exception as exc:  # noqa: BLE001
+        return {"verdict": "crash", "reason": repr(exc)}
+
+
 def load_known_findings():
     path = os.path.join(VERIF, "known_findings.json")
     if not os.path.exists(path):
@@ -163,6 +184,7 @@ def main(argv=None):
     ap.add_argument("--jobs", type=int, default=min(16, os.cpu_count() or 4))
     ap.add_argument("--only", default=None)
     ap.add_argument("--no-evidence", action="store_true")
+    ap.add_argument("-v", "--verbose", action="store_true")
     args = ap.parse_args(argv)
     prop = args.prop.upper()
     tier = args.tier if args.tier in ("quick", "thorough") else "quick"
@@ -188,6 +210,9 @@ def main(argv=None):
     else:
         results = [run_harness(w) for w in work]
 
+    if args.verbose:
+        for r in sorted(results, key=lambda r: -r["secs"]):
+            print(f"  {r['harness']}: paths={r['paths']} aborted={r['aborted']} checks={len(r['checks'])} secs={r['secs']:.1f} err={r['error']}")
     return report(prop, tier, seed, t0, results, meta, args)
 
 
@@ -200,9 +225,23 @@ def report(prop, tier, seed, t0, results, meta, args):
     by_solver = {}
     total_queries = 0
     notes = set()
+    bounded_runs = []
+    fuzz_violations = []
     for r in results:
         h = r["harness"]
         short = h.split(".", 1)[1] if h.startswith("contracts.") else h
+        if r["error"] and r["error"].startswith("outside-subset") and not short.rsplit(".", 1)[-1].startswith("canary_"):
+            # the function left the verifier's subset: the same executable contract is
+            # checked by a bounded search on the real code (never counted as proved)
+            modname, fname = h.rsplit(".", 1)
+            n = 3000 if tier == "quick" else 60000
+            fz = native_fuzz(modname, fname, n, seed, 60 if tier == "quick" else 600)
+            bounded_runs.append({"harness": short, "why": r["error"], "bound": f"{fz.get('runs', 0)} generated inputs (seed {seed})", "result": fz.get("verdict")})
+            if fz.get("verdict") == "confirmed":
+                fuzz_violations.append((h, short, fz))
+            elif fz.get("verdict") != "nothing-found":
+                errors.append(f"{short}: {r['error']}; bounded stand-in failed: {fz}")
+            continue
         if r["error"]:
             errors.append(f"{short}: {r['error']}")
             continue
@@ -268,11 +307,27 @@ def report(prop, tier, seed, t0, results, meta, args):
         else:
             violations.append((short, c, rp, nat))
 
+    for h, short, fz in fuzz_violations:
+        modname, fname = h.rsplit(".", 1)
+        lab = fz["failed"][0]["label"]
+        rp = os.path.join(VERIF, "replays", prop, (fname + ".bounded." + lab).replace("/", "_")[:150] + ".json")
+        with open(rp, "w") as f:
+            json.dump({"property": prop, "harness": h, "obligation": f"{short}:{lab}", "found_by": "bounded stand-in (generated inputs on the real code)", "model": fz["model"], "native": fz,
+                       "how_to_replay": f"PYTHONPATH=/verif:/repo/src /venv/bin/python -m pyvc.native {modname} {fname} {rp}"}, f, indent=1, default=repr)
+        kf = None
+        for k in known:
+            if k.get("harness") == fname and lab.startswith(k.get("label", "\0")):
+                kf = k
+        if kf is not None:
+            known_hit.append((kf, rp, fz))
+        else:
+            violations.append((short, {"label": lab, "where": "bounded stand-in", "model": fz["model"]}, rp, fz))
+
     wall = time.time() - t0
     n_ob = len(obligations)
     n_dis = sum(1 for o in obligations.values() if o["status"] == "proved")
-    level = meta["level"] if not (known_hit or meta["bounded"]) else "other"
-    if n_ob == 0 and not errors:
+    level = meta["level"] if not (known_hit or meta["bounded"] or bounded_runs) else "other"
+    if n_ob == 0 and not errors and not bounded_runs:
         errors.append("no obligation generated")
 
     samples = []
@@ -289,7 +344,8 @@ def report(prop, tier, seed, t0, results, meta, args):
             "library models in pyvc/lib.py, pyvc/ghost.py (struct, enum, dataclasses, dict/list/bytes, asyncio loop model)",
             "z3 5.1.0 (cvc5 1.0.3 for z3-unknowns)",
         ]
-        + trusted,
+        + trusted
+        + [f"assumed contract (not proved): {q}" for q in meta.get("assumed_contracts", [])],
         "functions_under_contract": meta["relevant"] or meta["under_contract"],
         "callees_replaced_by_contract": by_contract,
         "solver_queries": total_queries,
@@ -300,7 +356,7 @@ def report(prop, tier, seed, t0, results, meta, args):
         "refuted": [f"{s}:{c['label']}" for (s, c, _, _) in violations],
         "undecided": [f"{h}:{c['label']} ({c['reason']})" for (h, c) in unknown],
         "known_findings_hit": [k["id"] for (k, _, _) in known_hit],
-        "bounded_stand_ins": meta["bounded"],
+        "bounded_stand_ins": meta["bounded"] + bounded_runs,
         "samples": samples,
         "explanation": meta["explanation"]
         or "every obligation is a verification condition generated from the current source of /repo by symbolic execution of the real AST against sidecar contracts, discharged by an SMT solver for all inputs",
